@@ -352,4 +352,63 @@ theorem crash_fixed_md (b : Params N C S H) (fs : TState N C S) (hnd : b.outs.No
           fun m => foldl_mdNeutral _ m (fun op h => stampTail_neutral b op (List.mem_of_mem_take h))
         simp only [List.foldl_append, hE, hD, mdOps_md]
 
+/-! ### the repaired step run to its end -/
+
+theorem localOpsFixed_eq (b : Params N C S H) (fs : TState N C S) (n : N) :
+    localOpsFixed b fs n = [.prep, .run (b.new n)] ++ ([.clear] ++
+      (moveS b ⟨some (b.new n), (fs.out n).gen.map (fun nd => { nd with attr := none }), none⟩ n ++ stampS b n)) := by
+  simp only [localOpsFixed, List.append_assoc, List.cons_append, List.nil_append]
+  congr 3
+  unfold moveS
+  cases (fs.out n).gen <;> rfl
+
+/-- the slice a complete repaired build step leaves: the clean content, stamped with the current stamp -/
+theorem srun_localFixed (b : Params N C S H) (fs : TState N C S) (n : N) :
+    ∃ t, srun (fs.out n) (localOpsFixed b fs n) =
+      if b.useFb n then ⟨t, some (movedClr b (fs.out n) n), some (.full b.stamp)⟩
+      else ⟨t, some { movedClr b (fs.out n) n with attr := some b.stamp }, none⟩ := by
+  rw [localOpsFixed_eq]
+  generalize fs.out n = sl0
+  have hP : srun sl0 [.prep, .run (b.new n)] = ⟨some (b.new n), sl0.gen, sl0.fb⟩ := by simp [srun_cons, srun_nil, sstep]
+  have hc : srun (⟨some (b.new n), sl0.gen, sl0.fb⟩ : Slice C S) [.clear] =
+      ⟨some (b.new n), sl0.gen.map (fun nd => { nd with attr := none }), none⟩ := by simp [srun_cons, srun_nil, sstep]
+  obtain ⟨t', em⟩ := srun_move b n (b.new n) (sl0.gen.map (fun nd => { nd with attr := none })) (none : Option (Fb S))
+  have em' : srun (⟨some (b.new n), sl0.gen.map (fun nd => { nd with attr := none }), none⟩ : Slice C S)
+      (moveS b ⟨some (b.new n), sl0.gen.map (fun nd => { nd with attr := none }), none⟩ n) =
+      ⟨t', some (movedClr b sl0 n), none⟩ := em
+  rw [srun_append, hP, srun_append, hc, srun_append, em']
+  refine ⟨t', ?_⟩
+  by_cases hf : b.useFb n = true
+  · simp only [stampS, hf, if_true, List.cons_append, List.nil_append, srun_cons, sstep, srun_append]
+    obtain ⟨k, e'⟩ := srun_fbPart t' (some (movedClr b sl0 n)) b.fbParts 0
+    rw [e']; simp [srun_cons, srun_nil, sstep]
+  · have hf' : b.useFb n = false := by simpa using hf
+    simp [stampS, hf', srun_cons, srun_nil, sstep]
+
+theorem planFixed_out (b : Params N C S H) (fs : TState N C S) (hH : Function.Injective b.hash) (hnd : b.outs.Nodup)
+    (n : N) (hn : n ∈ b.outs) :
+    readStamp b (applyOps fs (planFixed b fs)) n = some b.stamp ∧
+    ∃ nd, ((applyOps fs (planFixed b fs)).out n).gen = some nd ∧ nd.content = b.new n := by
+  obtain ⟨t, e⟩ := srun_localFixed b fs n
+  unfold readStamp
+  rw [applyOps_out, planFixed_proj b fs n hnd hn, e]
+  by_cases hf : b.useFb n = true
+  · simp only [hf, if_true]
+    exact ⟨by simp [sliceStamp, Fb.read], _, rfl, (movedClr_spec b hH _ n).1⟩
+  · have hf' : b.useFb n = false := by simpa using hf
+    simp only [hf', Bool.false_eq_true, if_false]
+    exact ⟨by simp [sliceStamp], _, rfl, (movedClr_spec b hH _ n).1⟩
+
+theorem planFixed_md (b : Params N C S H) (fs : TState N C S) : (applyOps fs (planFixed b fs)).md = some b.mdBytes := by
+  rw [applyOps_md, planFixed_split]
+  have hA : ∀ m, List.foldl mdStep m ([Op.prepTmp] ++ b.outs.map (fun n => Op.out (S := S) n (.run (b.new n)))) = m :=
+    fun m => foldl_mdNeutral _ m (head_neutral b)
+  have hB : ∀ m, List.foldl mdStep m (b.outs.map (fun n => Op.out (C := C) (S := S) n .clear)) = m :=
+    fun m => foldl_mdNeutral _ m (clear_neutral b.outs)
+  have hD : ∀ m, List.foldl mdStep m (moveOps b fs) = m := fun m => foldl_mdNeutral _ m (moveOps_neutral b fs)
+  have hE : ∀ m, List.foldl mdStep m (stampOps b ++ (cacheOps b ++ [Op.finish])) = m :=
+    fun m => foldl_mdNeutral _ m (stampTail_neutral b)
+  simp only [List.foldl_append] at hA hB hE ⊢
+  simp only [hE, hD, mdOps_md]
+
 end PlzVerif.CrashBuild
